@@ -2,6 +2,12 @@
 from props_table import PROPS
 
 META = {
+    "C12": {
+        "text": "Lean 4 theorems over a model of the multisig actor that follows the Rust control flow (approve executes on the stored approvals first, approvals purged on remove/swap, pending entry deleted before the inner send, zero-value exemption of the lock check, admin methods require caller == receiver), with the inner send as an effect whose outcome and re-entrant activity (further calls into the wallet, including self-calls of the admin methods, nested to any depth) are universally quantified inputs: inv_shape (1 <= threshold <= |signers| <= 256, distinct signers, every pending tx has non-empty distinct approvers that are current signers, id < nextId) in every state after every history and at every inner send inside re-entrant or later rolled-back activations; send_needs_quorum; at_most_once; lock_respected with amountLocked = ceil(initial*remaining/duration), monotone, = initial before start, = 0 after the end; cancel_by_first; only_signers; admin_only_self. Tied to the code on every run by differential execution of generated histories on two real multisig actors (one a signer of the other, so executing a transaction re-enters the first wallet) in the harness VM against the compiled model, with an independent oracle that keeps its own approval log and checks every inner send found in the invocation trace.",
+        "design_ref": "DESIGN.md §7 C12",
+        "note": "Trusted: Lean kernel (axioms propext, Classical.choice, Quot.sound only), the hand-written model's tie to the code is differential (bounded by generator coverage reported in evidence), harness VM in place of ref-fvm, inner-send outcomes / proposal-hash comparison / parameter decoding as environment inputs, signer addresses restricted to ID addresses of existing actors.",
+        "technique": "Lean 4 invariant proofs by induction over histories and call depth + differential correspondence of model and real actors + trace oracle",
+    },
     "C16": {
         "text": "Lean 4 theorems over a model of the paych actor that follows the Rust control flow: acceptance soundness (update_sound), exact owed delta, lane-nonce monotonicity and no_replay over arbitrary later histories, 0 <= owed <= balance in every reachable state (inv_owed), settlement height only extends, collect_exact and collect_after_delay (>= settle epoch + 1440). The model is tied to the code on every run by differential execution of generated voucher/settle/collect histories on the real actor in the harness VM against the compiled model, with an independent oracle evaluating the property on the real state.",
         "design_ref": "DESIGN.md §7 C16",
